@@ -540,6 +540,11 @@ type caseOut struct {
 
 // generate builds the generator of a case and calls NewBlockTemplate.
 func (u *unit) generate(cs caseSpec) (tmpl *mining.BlockTemplate, err error) {
+	tmpl, _, err = u.generateG(cs)
+	return
+}
+
+func (u *unit) generateG(cs caseSpec) (tmpl *mining.BlockTemplate, g *mining.BlkTmplGenerator, err error) {
 	pol := &mining.Policy{BlockMinWeight: cs.Policy.MinW, BlockMaxWeight: cs.Policy.MaxW, BlockMinSize: cs.Policy.MinSize,
 		BlockMaxSize: cs.Policy.MaxSize, BlockPrioritySize: cs.Policy.Prio, TxMinFreeFee: btcutil.Amount(cs.Policy.MinFree)}
 	src := &orderedSource{p: u.pool, order: map[chainhash.Hash]int{}}
@@ -547,13 +552,14 @@ func (u *unit) generate(cs caseSpec) (tmpl *mining.BlockTemplate, err error) {
 		src.order[u.txs[idx].Hash] = pos
 	}
 	u.clock.T = lab.Now
-	g := mining.NewBlkTmplGenerator(pol, u.g.Params, src, u.g.BC, u.clock, u.sigCache, u.hashC)
+	g = mining.NewBlkTmplGenerator(pol, u.g.Params, src, u.g.BC, u.clock, u.sigCache, u.hashC)
 	defer func() {
 		if r := recover(); r != nil {
 			err = fmt.Errorf("PANIC: %v", r)
 		}
 	}()
-	return g.NewBlockTemplate(payAddr(cs.Addr, u.g.Params))
+	tmpl, err = g.NewBlockTemplate(payAddr(cs.Addr, u.g.Params))
+	return
 }
 
 func (u *unit) runCase(cs caseSpec, useCache bool) (out caseOut) {
@@ -1109,12 +1115,18 @@ func independencePhase(r *ev.Run, w *world) (found bool) {
 	for i, pol := range pols {
 		addr := []string{"p2pkh", "p2wpkh"}[i%2]
 		cs := caseSpec{World: w.Name, Pool: ps, Policy: pol, Perm: perm, Addr: addr}
-		tmpl, gerr := u.generate(cs)
+		tmpl, g, gerr := u.generateG(cs)
 		r.Eval(1)
 		r.Trans(1)
 		if gerr != nil || tmpl == nil || tmpl.Block == nil {
 			continue // the parallel phase reports generation failures
 		}
+		// the miner's update calls on the newest template are part of "a later
+		// template is produced": extra nonce and block time
+		if err := g.UpdateExtraNonce(tmpl.Block, tmpl.Height, uint64(7+i)); err != nil {
+			continue
+		}
+		_ = g.UpdateBlockTime(tmpl.Block)
 		for _, k := range keep {
 			now := serializeBlock(k.tmpl.Block)
 			what := ""
